@@ -26,6 +26,7 @@ From CSS Require Import Base.PyList ClassDB.Model ClassDB.Proofs Searcher.Model 
   Searcher.ProofsCore Searcher.Proofs
   RuleDB.Model RuleDB.StoreProofs RuleDB.CdbFacts RuleDB.GetProofs RuleDB.AddProofs RuleDB.Bridge
   RuleDB.AddHist RuleDB.SearchHist.
+From CSS Require Searcher.Deciders.
 Import ListNotations.
 Open Scope Z_scope.
 
@@ -282,6 +283,27 @@ Proof.
   pose proof (run_sim T [HAdd (h_start x) (h_ends x) (h_r x)] _ _ (simdb_init (h_d x))) as (Hc' & _).
   cbn [dict_run rec_run gen_run fold_left gen_step] in Hc'. fold (dict_add T) in Hc'. fold (rec_add T) in Hc'.
   rewrite <- Hc'. fold s in B. rewrite <- B. exact P3.
+Qed.
+
+(* THE SAME with every table hypothesis and packets_in replaced by ONE boolean the extracted run_c14 evaluates on the
+   table of every table-universe search it is compared on, with the packets the real queue handed out
+   (Searcher/Deciders.v search_hyps_b = pe_contractb && sym_contractb && sym_unaryb && items_plainb && packets_inb;
+   printed as the first bit of the element run_c14 appends to its output and compared with the harness's Python
+   predicates on every such case).  A case where it is false is a case this theorem says nothing about. *)
+Theorem C14_search_stored_rules_handed_back_decided : forall (T : table) (pack fpack : list Z),
+  forall F dl ev ans start ps, Searcher.Deciders.search_hyps_b T pack ps = true ->
+  let s := run_search T 0 F dl ev ans start ps in
+  forall start_label ends sid parent, In (EvAdd start_label ends sid parent) (trace s) ->
+  exists d r cs, r_sid r = sid /\ r_parent r = parent /\ add_pre T d start_label ends r cs /\
+    let k := stored_key T d start_label ends r cs in
+    let oe := in_eqv (snd k) (r_two_way T r) in
+    forall q, In q (-1 :: fpack) -> In r (cands T q parent) ->
+    forall s2, r_mem k s2 = true ->
+    exists d3 sid' p, rec_getitem T fpack oe s2 (cdb s) k = (d3, GOk sid' p) /\ reproduces T d3 sid' k = true.
+Proof.
+  intros T pack fpack F dl ev ans start ps H.
+  destruct (Searcher.Deciders.search_hyps_sound T pack ps H) as (A & B & C & D & E).
+  exact (C14_search_stored_rules_handed_back T pack fpack A B C D F dl ev ans start ps E).
 Qed.
 
 (* The searcher model of C04 uses the DictStore database: one ruledb.add of Searcher/Model.v (base_add, key
@@ -707,5 +729,6 @@ Print Assumptions C14_repair_hands_back.
 Print Assumptions C14_truthful_caches_keep_answers.
 Print Assumptions C14_search_states_keep_answers.
 Print Assumptions C14_search_stored_rules_handed_back.
+Print Assumptions C14_search_stored_rules_handed_back_decided.
 Print Assumptions C14_searcher_model_uses_dict_store.
 Print Assumptions C14_every_stored_rule_handed_back_refuted.
